@@ -431,7 +431,7 @@ def smallest_cap(algo, K, n, k=1):
 # rewards
 
 OPEN_FAMILIES = ["neg", "const", "zero", "tied", "noisy", "large", "large_off", "unit", "drift", "altext",
-                 "incr", "decr", "best_first", "best_last", "twoval", "quant5", "bern", "negbern", "nonpos3", "hugeneg", "intnormal", "intwide", "int3wide", "records"]
+                 "incr", "decr", "best_first", "best_last", "twoval", "quant5", "bern", "negbern", "nonpos3", "hugeneg", "intnormal", "intwide", "int3wide", "records", "negzero"]
 HUGE_FAMILIES = ["huge"]
 CLOSED_FAMILIES = ["cl_hump", "cl_sine", "cl_garland", "cl_step", "cl_negdist"]
 
@@ -487,6 +487,13 @@ def open_rewards(fam, seed, T):
     if fam == "best_last":
         r = -rng.random(T) - 0.5
         r[-1] = 0.25
+        return r
+    if fam == "negzero":
+        # all negative except a few exact zeros (+0.0 / -0.0): the best value coincides with the default reward of a
+        # cell that has not been evaluated yet
+        r = -rng.uniform(0.1, 1.0, T)
+        z = rng.random(T) < 0.05
+        r[z] = np.where(rng.random(int(z.sum())) < 0.5, 0.0, -0.0)
         return r
     if fam == "records":
         # a new strict record in about one round out of seven (so the best evaluation so far is often a recent one,
@@ -624,6 +631,11 @@ def gen_params(rng, algo, n, K, narrow=False):
         # the documented range is 0 < rhomax < 1; 15% of the draws sit close to 1, where POO keeps doubling its
         # number of learners (GPO has no budget per learner there: known finding of C01)
         rm = float(rng.uniform(0.02, 0.98)) if rng.random() < 0.85 else float(rng.uniform(0.98, 0.998))
+        if not narrow and rng.random() < 0.08:
+            # far corners of numax > 0 and of 0 < rhomax < 1
+            nu = float(10 ** rng.uniform(-8, -2)) if rng.random() < 0.5 else float(10 ** rng.uniform(2, 6))
+            if rng.random() < 0.3:
+                rm = float(10 ** rng.uniform(-6, -2))
         return {"nu": nu, "rhomax": rm}
     if algo == "DOO":
         return {}
@@ -634,13 +646,22 @@ def gen_params(rng, algo, n, K, narrow=False):
     if algo == "StoSOO":
         k = [None, 1, 2, 3, 5][int(rng.integers(5))]
         dl = [None, 0.01, 0.5][int(rng.integers(3))]
+        if not narrow and rng.random() < 0.08:
+            # far corners: confidence levels close to 0 or 1, evaluation counts of the order of the budget
+            dl = float(10 ** rng.uniform(-12, -4)) if rng.random() < 0.5 else float(rng.uniform(0.9, 0.9999))
+            if rng.random() < 0.4:
+                k = int(rng.choice([max(2, n // 10), n, 2 * n]))
         kk = stosoo_k(n, k)
         return {"k": k, "delta": dl, "h_max": smallest_cap("StoSOO", K, n, kk)}
     if algo in ("SequOOL", "StroquOOL"):
         return {}
     if algo == "VROOM":
         hm = int(rng.choice([1, 3, math.floor(math.log2(n)), 12, 25]))
-        return {"h_max": hm, "b": float(10 ** rng.uniform(-2, 1)), "f_max": float(10 ** rng.uniform(-1, 2))}
+        b, fm = float(10 ** rng.uniform(-2, 1)), float(10 ** rng.uniform(-1, 2))
+        if not narrow and rng.random() < 0.08:
+            b = float(10 ** rng.uniform(-7, -2)) if rng.random() < 0.5 else float(10 ** rng.uniform(1, 5))
+            fm = float(10 ** rng.uniform(-4, 4))
+        return {"h_max": hm, "b": b, "f_max": fm}
     if algo == "Zooming":
         return {"nu": nu, "rho": rho}
     raise KeyError(algo)
